@@ -58,7 +58,7 @@ META = {
                            'source kind distinguishable',
                  'ops': 'add(name, kind) for absent names, remove(name), remove(zz), mutate(name) = write into the '
                         'list / array the caller passed'},
-    'bounds': {'quick': '6 shapes, names p,q, depth 4', 'thorough': '10 shapes, names p,q,r, depth 4'},
+    'bounds': {'quick': '6 shapes, names p,q, depth 4', 'thorough': '10 shapes: names p,q,r to depth 3 and names p,q to depth 4'},
     'assumptions': ['re-adding a name that already exists is not part of the claim and is not offered',
                     'lookup tables hold ints (so that a rank mismatch cannot index into a value)'],
 }
@@ -593,7 +593,9 @@ def run(ctx):
         if ctx.small:
             items = [(s, ['p', 'q'], 3) for s in QUICK_SHAPES[:3]]
     else:
-        items = [(s, NAMES, 4) for s in SHAPES]
+        # every shape: all three names to depth 3, two names to depth 4 (22 source kinds: 66^4 histories per shape would
+        # take the thorough tier from minutes to hours)
+        items = [(s, NAMES, 3) for s in SHAPES] + [(s, ['p', 'q'], 4) for s in SHAPES]
     par.pmap(ctx, explore_one, items, procs=ctx.procs)
     for case in ([{'leg': 'big', 'kind': 'grid', 'dims': [64, 64]}, {'leg': 'big', 'kind': 'line', 'dims': [5000]}] +
                  ([{'leg': 'big', 'kind': 'discrete', 'dims': [16, 16, 17]}] if ctx.tier == 'thorough' else [])):
